@@ -1666,6 +1666,8 @@ def _check_constructor_aliasing(label, rd, F, count, notes):
 
 
 def _check_instance(label, rd, F, count, anomalies):
+    for i, opt in enumerate(getattr(rd, "options", ()) if int(rd.rdtype) == 41 else ()):
+        _probe_object(opt, f"{label}.options[{i}]", F, count)   # EDNS options of an OPT record
     other = object()
     count[0] += 1
     if rd == other or not (rd != other) or not (rd == rd) or rd != rd or hash(rd) != hash(rd):
@@ -1687,9 +1689,9 @@ def _check_instance(label, rd, F, count, anomalies):
                 F.append({"kind": "value:roundtrip", "what": f"{label}: wire round trip gives an unequal / differently hashed record", "cls": label})
     except Exception as e:  # noqa
         F.append({"kind": "value:roundtrip", "what": f"{label}: {type(e).__name__} {e}", "cls": label})
-    # copies and unpickled records must be immutable as well (__setstate__ runs under the same
-    # guard protocol).  Whether a copy is an *equal* record is outside the property text; what
-    # is observed is reported in coverage.copy_pickle_anomalies, not as a failure.
+    # value semantics: a copy / deep copy / unpickled copy of a record is an equal record (same
+    # class, hash) and is immutable as well (__setstate__ runs under the guard protocol).  A copy
+    # operation that refuses (raises) produces no wrong value; it is only noted.
     for how, f in (("copy", copy.copy), ("deepcopy", copy.deepcopy), ("pickle", lambda x: pickle.loads(pickle.dumps(x)))):
         count[0] += 1
         try:
@@ -1698,11 +1700,11 @@ def _check_instance(label, rd, F, count, anomalies):
             anomalies.append(f"{label}: {how} raised {type(e).__name__}")
             continue
         try:
-            same = rd3 == rd and hash(rd3) == hash(rd) and type(rd3) is type(rd)
+            same = rd3 == rd and hash(rd3) == hash(rd) and type(rd3) is type(rd) and rd3.to_digestable(ROOT) == rd.to_digestable(ROOT)
         except Exception as e:  # noqa
             same = False
         if not same:
-            anomalies.append(f"{label}: {how} is not an equal record")
+            F.append({"kind": "value:" + how, "what": f"{label}: the {how} of the record is not an equal record", "cls": label})
         if rd3 is not rd:
             _probe_object(rd3, label + " (" + how + ")", F, count)
 
@@ -1718,7 +1720,11 @@ def extra(ctx):
     classes = _rdata_subclasses()
     registered = set(dns.rdata._rdata_classes.values())
     # ---- class level: the mixin is in place and every __init__/__setstate__ in the chain is wrapped
-    for c in sorted(classes | {dns.rdata.Rdata, dns.name.Name, dns.rdataset.ImmutableRdataset, dns.immutable.Dict},
+    import dns.edns
+
+    option_classes = {c for c in vars(dns.edns).values()
+                      if isinstance(c, type) and issubclass(c, dns.edns.Option) and c is not dns.edns.Option}
+    for c in sorted(classes | option_classes | {dns.rdata.Rdata, dns.name.Name, dns.rdataset.ImmutableRdataset, dns.immutable.Dict},
                     key=lambda c: (c.__module__, c.__qualname__)):
         label = c.__module__ + "." + c.__qualname__
         count[0] += 1
